@@ -136,7 +136,15 @@ def parse_rw(body, where):
         m = re.match(r"if\s+([A-Za-z_0-9]+)\s*\(([^)]*)\)\s*", rest, re.S)
         if not m:
             raise TranslateError("%s: cannot parse condition of %s: %r" % (where, name, rest[:80]))
-        args = [unescape(a) for a in re.findall(STR, m.group(2))]
+        args = []
+        for a in [x.strip() for x in m.group(2).split(",") if x.strip()]:
+            ms = re.fullmatch(STR, a, re.S)
+            if ms:
+                args.append(unescape(ms.group(1)))
+            elif re.fullmatch(r"[A-Z][A-Z_0-9]*", a):
+                args.append("const:" + a)     # a named constant of the rule file (resolved below)
+            else:
+                raise TranslateError("%s: cannot parse condition argument %r of %s" % (where, a, name))
         conds.append({"fn": m.group(1), "args": args})
         rest = rest[m.end():]
     return {"name": name, "lhs": lhs, "rhs": rhs, "applier": applier, "conds": conds}
@@ -172,6 +180,17 @@ def extract_rules(repo):
             line = src.count("\n", 0, m.start()) + 1
             where = "%s.rs:%d" % (base, line)
             r = parse_rw(src[st + 1:en - 1], where)
+            for c in r["conds"]:
+                for i, a in enumerate(c["args"]):
+                    if a.startswith("const:"):
+                        mc = re.search(r"\bconst\s+%s\s*:\s*&\[Expr\]\s*=\s*&\[([^\]]*)\]\s*;" % re.escape(a[6:]), src)
+                        if not mc:
+                            raise TranslateError("%s: constant %s is not a `&[Expr]` literal" % (where, a[6:]))
+                        vs = [v.strip() for v in mc.group(1).split(",") if v.strip()]
+                        for v in vs:
+                            if not re.fullmatch(r"Expr::[A-Za-z]+", v):
+                                raise TranslateError("%s: constant %s: element %r" % (where, a[6:], v))
+                        c["args"][i] = "exprs:" + ",".join(v[6:] for v in vs)
             r.update({"file": base, "line": line, "list": "%s::%s" % (base, fn_at(m.start()))})
             rules.append(r)
         for m in re.finditer(r"(?<![A-Za-z_0-9])pushdown\s*\(", src):
@@ -196,6 +215,11 @@ def extract_rules(repo):
         r["lhs_ast"], r["lhs_extra_parens"] = parse_sexp(r["lhs"], where)
         rhs_txt = r["rhs"].replace("[", "").replace("]", "") if r["applier"] == "apply_proj" else r["rhs"]
         r["rhs_ast"], r["rhs_extra_parens"] = parse_sexp(rhs_txt, where)
+    # the atom <-> Rust variant pairing of the join types, as planner/mod.rs defines it
+    modsrc = strip_comments(open(os.path.join(repo, "src/planner/mod.rs")).read())
+    for var, atom in JT_VARIANTS.items():
+        if not re.search(r'"%s"\s*=\s*%s\s*,' % (re.escape(atom), var), modsrc):
+            raise TranslateError("planner/mod.rs: join type atom %s is no longer the node %s" % (atom, var))
     # stages
     opt = strip_comments(open(os.path.join(repo, "src/planner/optimizer.rs")).read())
     stages = {}
@@ -414,6 +438,10 @@ PLAN_TY = {"P": "Rel", "B": "BExpr", "E": "VExpr", "EL": "List VExpr", "KL": "Li
            "JT": "JoinType", "LIM": "Option Nat", "OFF": "Nat", "TBL": "Rel", "CL": "List VExpr"}
 JT_ATOMS = {"inner": ".inner", "left_outer": ".leftOuter", "right_outer": ".rightOuter", "full_outer": ".fullOuter",
             "semi": ".semi", "anti": ".anti"}
+# Rust variant of the join-type nodes (planner/mod.rs define_language: "inner" = Inner, ...); the
+# pairing is re-read from the source by check_jt_variants()
+JT_VARIANTS = {"Inner": "inner", "LeftOuter": "left_outer", "RightOuter": "right_outer", "FullOuter": "full_outer",
+               "Semi": "semi", "Anti": "anti"}
 # rules whose two sides enumerate the same rows in a different order (bag equality is claimed)
 PERM_RULES = {"inner-join-swap", "inner-hash-join-swap", "inner-join-right-rotate", "inner-join-right-rotate-1",
               "pushdown-filter-hashagg"}
@@ -490,6 +518,19 @@ def owned_of(ast):
     return "(%s).owned" % plan_emit(ast, "P")
 
 
+def cond_leaves(ast, want):
+    """pattern variables at the leaves of a condition pattern, with their sorts"""
+    if isinstance(ast, str):
+        return [(ast, want)] if ast.startswith("?") else []
+    h, args = ast[0], ast[1:]
+    if h not in PLAN_SIG:
+        return []
+    out = []
+    for a, so in zip(args, PLAN_SIG[h][0]):
+        out += cond_leaves(a, so)
+    return out
+
+
 def wf_hyps(ast, want, out):
     """well-formedness of an instantiated pattern: every operator's expressions read only the
     columns its inputs own; the two sides of a join own disjoint columns"""
@@ -509,8 +550,11 @@ def wf_hyps(ast, want, out):
     else:
         scope = None
     for a, so in zip(args, argsorts):
-        if so == "B" and scope and not (isinstance(a, str) and a in ("true", "false")):
-            out.append("ReadsWithin %s %s" % (plan_emit(a, "B"), scope))
+        if so == "B" and scope:
+            # every leaf of the condition reads only what the inputs provide (well-formedness is
+            # syntactic: it holds of each sub-expression, not just of the composite's value)
+            for leaf, lso in cond_leaves(a, "B"):
+                out.append("ReadsWithin %s %s" % (pvar(leaf), scope))
         if so == "EL" and scope:
             out.append("(∀ e ∈ %s, ReadsWithin e %s)" % (plan_emit(a, "EL"), scope))
         if so == "KL" and scope and not (isinstance(a, list) and a == ["list"]):
@@ -597,6 +641,18 @@ def translate_plan_rule(r):
                 hyps.append("True")
         elif fn == "is_primary_key_range":
             hyps.append("True")   # the scan contract (C13) is built into `scan`
+        elif fn == "join_type_is":
+            # `egraph[?type].nodes` contains one of the listed join-type nodes; a join-type
+            # e-class holds exactly one node (no rule rewrites a join type)
+            ty, vs = args
+            if sorts.get(ty) != "JT" or not vs.startswith("exprs:"):
+                raise NotX("join_type_is(%s, %s)" % (ty, vs))
+            alts = []
+            for v in vs[6:].split(","):
+                if v not in JT_VARIANTS:
+                    raise NotX("join_type_is: %s is not a join type" % v)
+                alts.append("%s = JoinType%s" % (pvar(ty), JT_ATOMS[JT_VARIANTS[v]]))
+            hyps.append("(%s)" % " ∨ ".join(alts) if alts else "False")
         else:
             raise NotX("condition %s" % fn)
     allvars = list(sorts.items())
